@@ -180,6 +180,90 @@ Proof.
       destruct (cont_row sh cur d vs) as [[c vs']|]; [|discriminate]. eauto.
 Qed.
 
+(* ---------- inside a page after its first row has begun (started = True), for ANY continuation K
+   of the read after the page (K a' i: what happens with the array and the returned i) and any
+   claim Q.  Used with K = the rest of read_col's loop (below) and with the repaired loop
+   (Proofs/CAssembleFixedProofs.v). ---------- *)
+Section GenK.
+Variable Q : ares (arr V) -> arr V -> Prop.
+Variable K : arr V -> nat -> ares (arr V).
+
+Definition run_fromK (s : st V) (es : list entry) : ares (arr V) :=
+  match run_steps null md s es with
+  | AErr x => AErr x
+  | AOk s' =>
+    match finish_page s' with
+    | AOk (a', i) => K a' i
+    | AErr x => AErr x
+    end
+  end.
+
+Lemma run_fromK_cons : forall s e es,
+  run_fromK s (e :: es) =
+  match step null md s e with AOk s' => run_fromK s' es | AErr x => AErr x end.
+Proof.
+  intros. unfold run_fromK. cbn [run_steps]. destruct (step null md s e); reflexivity.
+Qed.
+
+Lemma in_page_startedK : forall later,
+  (forall (pre : arr V) cur out,
+     asm sh cur (later_entries later) (later_vals later) = Some out ->
+     Q (K (pre ++ cur :: repeat None (length out - 1)) (length pre)) (pre ++ out)) ->
+  forall es i part hn vali lv (pre : arr V) cur out,
+    i = length pre -> cell hn part = cur ->
+    length lv = count_md md es ->
+    asm sh cur (es ++ later_entries later) (lv ++ later_vals later) = Some out ->
+    Q (run_fromK (mkSt i part true hn vali lv (pre ++ repeat None (length out))) es) (pre ++ out).
+Proof.
+  intros later PS. induction es as [|[r d] es IH]; intros i part hn vali lv pre cur out Hi Hc Hl Ha.
+  - (* end of the page: write the row in progress, go on with the next page *)
+    destruct lv; [|discriminate]. cbn [app] in Ha.
+    pose proof (asm_length _ _ _ _ Ha) as Lo.
+    unfold run_fromK. cbn [run_steps]. unfold finish_page. cbn [s_started s_arr s_i s_have_null s_part].
+    destruct (length out) as [|n] eqn:En; [lia|]. cbn [repeat].
+    subst i. rewrite write_row_app. rewrite Hc.
+    specialize (PS pre cur out Ha). rewrite En in PS. cbn [Nat.sub] in PS.
+    rewrite Nat.sub_0_r in PS. exact PS.
+  - rewrite run_fromK_cons. cbn [app asm] in Ha. unfold step.
+    destruct (r =? 0) eqn:R0.
+    + (* a new row: the row in progress is written to slot i *)
+      destruct (open_row sh d (lv ++ later_vals later)) as [[c vs']|] eqn:Eo; [|discriminate].
+      destruct (asm sh c (es ++ later_entries later) vs') as [out'|] eqn:Ea; [|discriminate].
+      injection Ha as <-.
+      unfold new_row. cbn [s_started s_arr s_i s_have_null s_part s_vali s_vals].
+      cbn [length repeat]. subst i. rewrite write_row_app. rewrite Hc.
+      assert (Hv : (d =? md) = true -> lv <> []).
+      { intros E. cbn [count_md] in Hl. rewrite E in Hl. destruct lv; [discriminate|discriminate]. }
+      destruct (add_level_open d lv _ c vs' (S (length pre)) true hn vali (pre ++ cur :: repeat None (length out')) Eo Hv)
+        as (part' & hn' & vali' & lv' & E1 & E2 & E3 & E4).
+      rewrite E1. subst vs'.
+      rewrite (app_cons_assoc pre _ (repeat None (length out'))). rewrite (app_cons_assoc pre _ out').
+      apply (IH (S (length pre)) part' hn' vali' lv' (pre ++ [cur]) c out').
+      * rewrite app_length. cbn. lia.
+      * exact E2.
+      * cbn [count_md] in Hl. destruct (d =? md); lia.
+      * exact Ea.
+    + (* continuation of the row in progress *)
+      destruct (r =? 1); [|discriminate].
+      destruct (cont_row sh cur d (lv ++ later_vals later)) as [[c vs']|] eqn:Ec; [|discriminate].
+      assert (Hv : (d =? md) = true -> lv <> []).
+      { intros E. cbn [count_md] in Hl. rewrite E in Hl. destruct lv; [discriminate|discriminate]. }
+      destruct cur as [L|]; [|discriminate].
+      destruct (add_level_cont d L lv _ c vs' i part true hn vali (pre ++ repeat None (length out)) Ec Hv)
+        as (x & lv' & E1 & E2 & E3 & E4 & E5).
+      rewrite E1. subst vs'.
+      apply (IH i (x :: part) false _ lv' pre c out); try assumption.
+      * subst c. unfold cell in Hc. destruct hn; [discriminate|]. injection Hc as <-.
+        unfold cell. cbn [rev]. reflexivity.
+      * cbn [count_md] in Hl. destruct (d =? md); lia.
+Qed.
+
+End GenK.
+
+Lemma run_from_K : forall s es later,
+  run_from s es later = run_fromK (fun a' i => read_col_v1 null md a' (S i) later) s es.
+Proof. reflexivity. Qed.
+
 (* ---------- walking through the pages that satisfy good_page, for any claim Q about the final
    result: Q res expected.  Instantiated with  res = AOk expected  (the theorem) and with
    res <> AOk expected  (tightness of the guard: a later bad page spoils the result). ---------- *)
@@ -205,51 +289,10 @@ Lemma in_page_started : forall later, PstartG later ->
     pages_aligned sh later = true -> Hyp later ->
     Q (run_from (mkSt i part true hn vali lv (pre ++ repeat None (length out))) es later) (pre ++ out).
 Proof.
-  intros later PS. induction es as [|[r d] es IH]; intros i part hn vali lv pre cur out Hi Hc Hl Ha Al Gd.
-  - (* end of the page: write the row in progress, go on with the next page *)
-    destruct lv; [|discriminate]. cbn [app] in Ha.
-    pose proof (asm_length _ _ _ _ Ha) as Lo.
-    unfold run_from. cbn [run_steps]. unfold finish_page. cbn [s_started s_arr s_i s_have_null s_part].
-    destruct (length out) as [|n] eqn:En; [lia|]. cbn [repeat].
-    subst i. rewrite write_row_app. rewrite Hc.
-    specialize (PS pre cur out Ha Al Gd). rewrite En in PS. cbn [Nat.sub] in PS.
-    rewrite Nat.sub_0_r in PS. exact PS.
-  - rewrite run_from_cons. cbn [app asm] in Ha. unfold step.
-    destruct (r =? 0) eqn:R0.
-    + (* a new row: the row in progress is written to slot i *)
-      destruct (open_row sh d (lv ++ later_vals later)) as [[c vs']|] eqn:Eo; [|discriminate].
-      destruct (asm sh c (es ++ later_entries later) vs') as [out'|] eqn:Ea; [|discriminate].
-      injection Ha as <-.
-      unfold new_row. cbn [s_started s_arr s_i s_have_null s_part s_vali s_vals].
-      cbn [length repeat]. subst i. rewrite write_row_app. rewrite Hc.
-      assert (Hv : (d =? md) = true -> lv <> []).
-      { intros E. cbn [count_md] in Hl. rewrite E in Hl. destruct lv; [discriminate|discriminate]. }
-      destruct (add_level_open d lv _ c vs' (S (length pre)) true hn vali (pre ++ cur :: repeat None (length out')) Eo Hv)
-        as (part' & hn' & vali' & lv' & E1 & E2 & E3 & E4).
-      rewrite E1. subst vs'.
-      replace (pre ++ cur :: repeat None (length out')) with ((pre ++ [cur]) ++ repeat None (length out'))
-        by (rewrite <- app_assoc; reflexivity).
-      replace (pre ++ cur :: out') with ((pre ++ [cur]) ++ out') by (rewrite <- app_assoc; reflexivity).
-      apply (IH (S (length pre)) part' hn' vali' lv' (pre ++ [cur]) c out').
-      * rewrite app_length. cbn. lia.
-      * exact E2.
-      * cbn [count_md] in Hl. destruct (d =? md); lia.
-      * exact Ea.
-      * exact Al.
-      * exact Gd.
-    + (* continuation of the row in progress *)
-      destruct (r =? 1); [|discriminate].
-      destruct (cont_row sh cur d (lv ++ later_vals later)) as [[c vs']|] eqn:Ec; [|discriminate].
-      assert (Hv : (d =? md) = true -> lv <> []).
-      { intros E. cbn [count_md] in Hl. rewrite E in Hl. destruct lv; [discriminate|discriminate]. }
-      destruct cur as [L|]; [|discriminate].
-      destruct (add_level_cont d L lv _ c vs' i part true hn vali (pre ++ repeat None (length out)) Ec Hv)
-        as (x & lv' & E1 & E2 & E3 & E4 & E5).
-      rewrite E1. subst vs'.
-      apply (IH i (x :: part) false _ lv' pre c out); try assumption.
-      * subst c. unfold cell in Hc. destruct hn; [discriminate|]. injection Hc as <-.
-        unfold cell. cbn [rev]. reflexivity.
-      * cbn [count_md] in Hl. destruct (d =? md); lia.
+  intros later PS es i part hn vali lv pre cur out Hi Hc Hl Ha Al Gd.
+  rewrite run_from_K.
+  apply (in_page_startedK Q (fun a' i => read_col_v1 null md a' (S i) later) later) with (cur := cur); try assumption.
+  intros pre0 cur0 out0 Ha0. exact (PS pre0 cur0 out0 Ha0 Al Gd).
 Qed.
 
 (* at the start of a page that continues a row (started = False): the pending part *)
